@@ -9,6 +9,7 @@ import Asn1.Container
 import Proofs.ContainerSeqOf
 import Proofs.ContainerRec
 import Proofs.ContainerChoice
+import Proofs.ContainerDyn
 
 namespace Asn1.C19
 open Asn1.Container
@@ -52,6 +53,15 @@ theorem seq_refines_dict_partial (fields : List FK) (hN : fields.length ≠ 0) (
     Rec.absD (Rec.run fields st ops).1 = (DictSpec.run fields (Rec.absD st) ops).1 ∧
     Rec.Inv fields (Rec.run fields st ops).1 :=
   run_abs hinv hN ops hal
+
+/-- **SEQUENCE / SET without componentType (dynamic names field-0, field-1, …) refines a growing
+    list**: from the object that represents any prototype state, along any history of allowed
+    operations (everything except `setComponentByPosition(i)` without value where it would store the
+    noValue sentinel), results are equal step by step and the object stays the representation of
+    the prototype state — names are exactly field-0 … field-(n-1) at all times. -/
+theorem seq_dynamic_refines_list (s : DynSpec.St) (ops : List RecOp) (hal : DynSpec.AllowedRun s ops) :
+    Rec.run [] (DynSpec.rep s) ops = (DynSpec.rep (DynSpec.run s ops).1, (DynSpec.run s ops).2) :=
+  dyn_run s ops hal
 
 /-- the T4-eq region is not empty: after `values()` touched the absent OPTIONAL member, `==` with
     a fresh equal record raises the library error where the dict prototype answers True -/
@@ -179,5 +189,7 @@ example : DictSpec.illFormed [FK.req, FK.opt] (.setItemName 2 (.py 1)) = true :=
 example : ListSpec.illFormed true (some [some 1]) (.getItem (-2)) = true := by decide
 example : choiceIllFormed 2 (.setItemPos 2 (.py 1)) = true := by decide
 example : Choice.Inv 2 ⟨some [], none⟩ := inv_fresh 2
+example : (DynSpec.run none [.setItemPos 0 (.obj 4), .setItemPos 1 (.obj 5), .setItemName 0 (.py 7), .setItemPos 3 (.obj 1),
+    .getItemName 1, .clone true, .keys]).1 = some [7, 5] := by decide
 
 end Asn1.C19
